@@ -16,5 +16,6 @@ class VariableBoundExprMinPropagator(VariableBoundMinPropagator):
         self.min_e = min_e
 
     def min(self):
-        return int(self.min_e.val())
+        v = self.min_e.val()
+        return int(v) if v is not None else None
     
